@@ -49,6 +49,9 @@ struct C17 : Profile {
       "begin oc = opass(vf(72)); ob = omake(0 / 0); exception when others then print error@1; end;", "print isnull(ob);", "print oa.tag();",
       "for k in 1 to 3 loop oc = vf(80 + k); if k == 2 then break; end if; end loop;", "w9 = 0; while w9 < 2 loop w9 = w9 + 1; ob = vf(90); end loop;",
       // an element written through the iterator and read again in the same iteration
+      // a copy taken from the element just written must not take the object away from the table (EXPECT:<wanted>:<printed> tokens are compared after the run)
+      "if not isnull(ot) then forall oe in ot loop oe = vf(44); oc = oe; ob = oe; end loop; forall oe in ot loop print \"EXPECT:FALSE:\" isnull(oe) \" EXPECT:44:\" oe.tag(); end loop; end if;",
+      "if not isnull(ot) then forall oe in ot loop oe = oa; ou = tup(1, oe, \"z\"); end loop; forall oe in ot loop print \"EXPECT:FALSE:\" isnull(oe) \" EXPECT:FALSE:\" isnull(ou@2); end loop; end if;",
       "forall oe in ot loop oe = vf(42); oc = oe; print oe.tag(); end loop;", "forall oe in ot loop oe = oa; ou = tup(1, oe, \"y\"); print oe.tag() isnull(oe); end loop;", "forall oe in ot loop oe = vf(43); do okeep(oe); print opass(oe).tag(); end loop;" };
     int n = (int)r.range(4, 14);
     for (int i = 0; i < n; ++i) {
@@ -165,6 +168,10 @@ struct C17 : Profile {
       else if (op == "free_orig") { if (orig) { delete orig; orig = nullptr; orig_usable = false; ++lifecycle; ++res.faults["free_orig"]; } }
       check_refs("after " + op);
     }
+    // scripted expectations: "EXPECT:<wanted>:<printed>" (only programs that ran to the end of such a statement print them)
+    { std::vector<std::string> outs; if (orig && orig->ctxout()) fflush(orig->ctxout()); outs.push_back(capO.read_all()); for (auto& c : clones) { if (c.first && c.first->ctxout()) fflush(c.first->ctxout()); if (c.second) outs.push_back(c.second->read_all()); }
+      for (auto& o : outs) { size_t p = 0; while ((p = o.find("EXPECT:", p)) != std::string::npos) { size_t a = p + 7, b = o.find(':', a); if (b == std::string::npos) break; size_t e = o.find_first_of(" \n", b + 1); std::string want = o.substr(a, b - a), got = o.substr(b + 1, e == std::string::npos ? std::string::npos : e - b - 1); ++res.probes["scripted_expectations"];
+          if (want != got) fail("C17/reference-lost-or-duplicated", "the program printed '" + got + "' where '" + want + "' was expected (" + printable(o.substr(p, 60), 80) + ")"); p = b + 1; } } }
     // release everything: "no later"
     for (auto& c : clones) { delete c.first; c.first = nullptr; }
     delete be; delete se; for (auto e : extra_exes) delete e;
